@@ -433,6 +433,10 @@ func (c *FuncCtx) execFor(fr *frame, n *ast.ForStmt, st *State, k func(*State)) 
 
 // execRange supports: for i := range <int>, for i[, v] := range <slice of integers>.
 func (c *FuncCtx) execRange(fr *frame, n *ast.RangeStmt, st *State, k func(*State)) {
+	if rl, ok := c.con.RowLoops[c.loopOrd[n]]; ok {
+		c.execRowLoop(fr, n, rl, c.loopOrd[n], st, k)
+		return
+	}
 	ls, ord := c.loopSpec(n)
 	depth := len(st.scope)
 	exit := func(s *State) {
@@ -562,7 +566,7 @@ func (c *FuncCtx) elemOf(st *State, s SliceV, i *Term) Value {
 		et = p.Elem()
 	}
 	if _, ok := et.Underlying().(*types.Struct); ok {
-		return &StructV{T: et, Prefix: fmt.Sprintf("elem(%s,%s)", s.Addr.Key(), i.Key()), F: map[string]Value{}}
+		return &StructV{T: et, Prefix: "elem." + types.TypeString(et, func(p *types.Package) string { return p.Name() }), F: map[string]Value{}, Key: []*Term{s.Addr, i}}
 	}
 	panic(verr("unsupported slice element type %s", s.Elem))
 }
@@ -1174,4 +1178,284 @@ func conjuncts(t *Term) []*Term {
 		return t.Args
 	}
 	return []*Term{t}
+}
+
+// proveClause emits the obligations of one contract clause.  A clause of the shape
+// forall(k, lo, hi, body) that carries `by` hints is proved by forall-introduction: k becomes a
+// fresh constant with lo <= k < hi and the hints are evaluated with k bound to it, so they may
+// mention the element under consideration.
+func (c *FuncCtx) proveClause(st *State, kind, detail string, cl *Clause, mkEnv func(facts *[]*Term) *SpecEnv, at ast.Node, extra []*Term) {
+	if call, ok := stripParens(cl.Expr).(*ast.CallExpr); ok && exprString(call.Fun) == "forall" && len(call.Args) == 4 && len(cl.By) > 0 {
+		if kid, ok := call.Args[0].(*ast.Ident); ok {
+			var facts []*Term
+			env := mkEnv(&facts)
+			k0 := Var(c.freshName(kid.Name), SInt)
+			lo, hi := env.Int(call.Args[1]), env.Int(call.Args[2])
+			env.bound[kid.Name] = IntV{k0}
+			by := c.evalHints(st, cl.By, env, cl.Line)
+			g := env.Bool(call.Args[3])
+			rng := And(Le(lo, k0), Lt(k0, hi))
+			all := append(append(append([]*Term{rng}, extra...), by...), facts...)
+			for j, gj := range conjuncts(g) {
+				o := c.oblige(st, kind, fmt.Sprintf("%s.%d", detail, j), gj, at, all...)
+				if at == nil {
+					o.File = cl.Line
+				}
+			}
+			return
+		}
+	}
+	var facts []*Term
+	env := mkEnv(&facts)
+	var by []*Term
+	if len(cl.By) > 0 {
+		by = c.evalHints(st, cl.By, env, cl.Line)
+	}
+	g := env.Bool(cl.Expr)
+	all := append(append(append([]*Term(nil), extra...), by...), facts...)
+	for j, gj := range conjuncts(g) {
+		o := c.oblige(st, kind, fmt.Sprintf("%s.%d", detail, j), gj, at, all...)
+		if at == nil {
+			o.File = cl.Line
+		}
+	}
+}
+
+// ---------- row loops ----------
+//
+// A loop over the RNS rows (`for i, s := range r.SubRings[:r.level+1] { BODY(i) }`) under a
+// `rowloop` contract is verified for ONE generic row i, started from the heap before the loop:
+//
+//	assume rowpre(i);  BODY(i);  prove rowpost(i)  and  "only row i of the outputs changed".
+//
+// Meta-argument (engine, stated in the evidence): rows with different indices are disjoint
+// storage, the body indexes the output polynomials only with the loop variable (checked: any
+// other index into an output must lie outside the loop range), hence iterations are independent
+// and the state after the loop satisfies rowpost(i) for every i of the range, all other cells
+// being unchanged.
+func (c *FuncCtx) execRowLoop(fr *frame, n *ast.RangeStmt, rl *RowLoopSpec, ord int, st *State, k func(*State)) {
+	depth := len(st.scope)
+	xv := c.eval(st, n.X)
+	sl, ok := xv.(SliceV)
+	var length *Term
+	if ok {
+		length = sl.Len
+	} else if iv, ok := xv.(IntV); ok {
+		length = iv.T
+	} else {
+		panic(verr("rowloop over %T at %s", xv, c.prog.pos(n)))
+	}
+	id, ok := n.Key.(*ast.Ident)
+	if !ok || id.Name != rl.Var {
+		panic(verr("%s: rowloop variable %s does not match the loop at %s", rl.Line, rl.Var, c.prog.pos(n)))
+	}
+	keyObj := c.info.Defs[id]
+	if keyObj == nil {
+		keyObj = c.info.Uses[id]
+	}
+	// the contract's range must be the loop's range
+	{
+		var facts []*Term
+		se := c.specEnv(st, &facts)
+		lo, hi := se.Int(rl.Lo), se.Int(rl.Hi)
+		c.oblige(st, "rowloop-range", fmt.Sprintf("loop%d", ord), And(Eq(lo, ConstI(0)), Eq(hi, length)), n, facts...)
+	}
+	pre := st.clone()
+	body := st.clone()
+	i := Var(c.freshName(rl.Var), SInt)
+	c.setRange(i, bigZero, maxLen)
+	body.declare(keyObj, IntV{i})
+	body.assume(And(Le(ConstI(0), i), Lt(i, length)))
+	if n.Value != nil {
+		if vid, ok := n.Value.(*ast.Ident); ok && vid.Name != "_" && sl.Addr != nil {
+			obj := c.info.Defs[vid]
+			if obj == nil {
+				obj = c.info.Uses[vid]
+			}
+			body.declare(obj, c.elemOf(body, sl, i))
+		}
+	}
+	// independence: an output polynomial is indexed by the loop variable only
+	outNames := map[string]bool{}
+	for _, o := range rl.Out {
+		outNames[exprString(o)] = true
+	}
+	ast.Inspect(n.Body, func(m ast.Node) bool {
+		ix, ok := m.(*ast.IndexExpr)
+		if !ok {
+			return true
+		}
+		sel, ok := stripParens(ix.X).(*ast.SelectorExpr)
+		if !ok || sel.Sel.Name != "Coeffs" || !outNames[exprString(sel.X)] {
+			return true
+		}
+		if iid, ok := stripParens(ix.Index).(*ast.Ident); ok && iid.Name == rl.Var {
+			return true
+		}
+		idx := c.evalInt(body, ix.Index)
+		c.oblige(body, "rowloop-independence", fmt.Sprintf("loop%d", ord), Or(Lt(idx, ConstI(0)), Le(length, idx)), ix)
+		return true
+	})
+	// callee views for rowcalls
+	type rowView struct {
+		con *Contract
+		env func(s *State, old *State, facts *[]*Term) *SpecEnv
+		key string
+	}
+	var views []rowView
+	for _, rc := range rl.Calls {
+		key := c.pkg.PkgPath + "." + rc.Callee
+		callee, ok := c.prog.Contracts[key]
+		fi, ok2 := c.prog.Funcs[key]
+		if !ok || !ok2 {
+			panic(verr("%s: rowcall to unknown function %s", rl.Line, rc.Callee))
+		}
+		sig := fi.Obj.Type().(*types.Signature)
+		var names []string
+		if rn := recvName(fi.Decl); rn != "" {
+			names = append(names, rn)
+		}
+		for j := 0; j < sig.Params().Len(); j++ {
+			names = append(names, sig.Params().At(j).Name())
+		}
+		if len(names) != len(rc.Args) {
+			panic(verr("%s: rowcall %s: %d arguments for %d parameters", rl.Line, rc.Callee, len(rc.Args), len(names)))
+		}
+		args := rc.Args
+		pkgPath := fi.Pkg.PkgPath
+		mk := func(s *State, old *State, facts *[]*Term) *SpecEnv {
+			outer := c.specEnv(s, facts)
+			outer.oldSt = old
+			bound := map[string]Value{}
+			for j, nm := range names {
+				bound[nm] = outer.Eval(args[j])
+			}
+			ne := *outer
+			ne.bound = bound
+			ne.cur, ne.old = nil, nil
+			ne.lets = callee.Lets
+			ne.pkg = pkgPath
+			return &ne
+		}
+		// the callee's own contract and, through wraps, the kernel's
+		var collect func(con *Contract, env func(*State, *State, *[]*Term) *SpecEnv, pk string, d int)
+		collect = func(con *Contract, env func(*State, *State, *[]*Term) *SpecEnv, pk string, d int) {
+			views = append(views, rowView{con, env, key})
+			if con.Wrap != nil && d < 4 {
+				k2 := pk + "." + con.Wrap.Callee
+				c2, okc := c.prog.Contracts[k2]
+				f2, okf := c.prog.Funcs[k2]
+				if !okc || !okf {
+					panic(verr("%s: wraps unknown function %s", con.File, con.Wrap.Callee))
+				}
+				s2 := f2.Obj.Type().(*types.Signature)
+				var n2 []string
+				if rn := recvName(f2.Decl); rn != "" {
+					n2 = append(n2, rn)
+				}
+				for j := 0; j < s2.Params().Len(); j++ {
+					n2 = append(n2, s2.Params().At(j).Name())
+				}
+				wargs := con.Wrap.Args
+				sub := func(s *State, old *State, facts *[]*Term) *SpecEnv {
+					outer := env(s, old, facts)
+					b := map[string]Value{}
+					for j, nm := range n2 {
+						b[nm] = outer.Eval(wargs[j])
+					}
+					ne := *outer
+					ne.bound = b
+					ne.lets = c2.Lets
+					ne.pkg = f2.Pkg.PkgPath
+					return &ne
+				}
+				collect(c2, sub, f2.Pkg.PkgPath, d+1)
+			}
+		}
+		collect(callee, mk, pkgPath, 0)
+	}
+	// assume the row preconditions
+	for _, cl := range rl.Pre {
+		var facts []*Term
+		g := c.specEnv(body, &facts).Bool(cl.Expr)
+		for _, f := range facts {
+			body.assume(f)
+		}
+		body.assume(g)
+	}
+	for _, v := range views {
+		for _, r := range v.con.Requires {
+			var facts []*Term
+			g := v.env(body, pre, &facts).Bool(r.Expr)
+			for _, f := range facts {
+				body.assume(f)
+			}
+			body.assume(g)
+		}
+	}
+	bodyDepth := len(body.scope)
+	endIter := func(se *State) {
+		if len(se.scope) > bodyDepth {
+			se.scope = se.scope[:bodyDepth]
+		}
+		pi := 0
+		for _, cl := range rl.Post {
+			c.proveClause(se, "rowpost", fmt.Sprintf("loop%d.%d", ord, pi), cl, func(facts *[]*Term) *SpecEnv {
+				env := c.specEnv(se, facts)
+				env.oldSt = pre
+				return env
+			}, n, nil)
+			pi++
+		}
+		for _, v := range views {
+			for _, en := range v.con.Ensures {
+				var facts []*Term
+				g := v.env(se, pre, &facts).Bool(en.Expr)
+				for j, gj := range conjuncts(g) {
+					c.oblige(se, "rowpost", fmt.Sprintf("loop%d.%d.%d", ord, pi, j), gj, n, facts...)
+				}
+				pi++
+			}
+		}
+		// frame of the iteration: only row i of the outputs changed
+		var rs []region
+		var ff []*Term
+		env := c.specEnv(se, &ff)
+		for _, o := range rl.Out {
+			row := &ast.IndexExpr{X: &ast.SelectorExpr{X: o, Sel: ast.NewIdent("Coeffs")}, Index: ast.NewIdent(rl.Var)}
+			s := env.slice(row)
+			rs = append(rs, region{heapName(s.Elem), s.Addr, Add(s.Addr, s.Len)})
+		}
+		for _, h := range sortedHeapNames(se.heaps) {
+			cur := se.heaps[h]
+			old := c.heap(pre, h)
+			if cur.Key() == old.Key() {
+				continue
+			}
+			p := Var(c.freshName("p"), SInt)
+			c.oblige(se, "rowframe", fmt.Sprintf("loop%d.%s", ord, h), Implies(outsideAll(p, rs, h), Eq(Select(cur, p), Select(old, p))), n, ff...)
+		}
+	}
+	nfr := *fr
+	nfr.cont = func(*State) { panic(verr("continue inside a rowloop at %s", c.prog.pos(n))) }
+	nfr.brk = func(*State) { panic(verr("break inside a rowloop at %s", c.prog.pos(n))) }
+	c.execBlock(&nfr, n.Body.List, body, endIter)
+	// after the loop: the output rows are unknown to the code that follows (the per-row
+	// postconditions are exported to callers as derived clauses, not re-assumed here)
+	after := pre
+	as := c.assignedIn(n.Body)
+	for h := range as.heaps {
+		c.heap(after, h)
+		after.heaps[h] = Var(c.freshName(h), SArr)
+	}
+	if as.calls {
+		for _, h := range sortedHeapNames(after.heaps) {
+			after.heaps[h] = Var(c.freshName(h), SArr)
+		}
+	}
+	if len(after.scope) > depth {
+		after.scope = after.scope[:depth]
+	}
+	c.assumed = append(c.assumed, fmt.Sprintf("rowloop %d: verified for one generic row; rows of different index are assumed to be disjoint storage (iterations independent)", ord))
+	k(after)
 }
